@@ -18,7 +18,7 @@ FEATURES = [
     "kern_block", "fractional", "quadratic", "cubic", "ttx_data", "vertical",
     "prodnames_off", "meta", "instructions_off", "dottedcircle", "ds_skipexport",
     "openinfo", "background_layer", "glyph_lib", "empty_glyph", "underline_pos", "ds5_vfs",
-    "multi_anchor", "tt_instructions",
+    "multi_anchor", "tt_instructions", "colrv1",
 ]
 
 # name, unicodes, kind
@@ -545,6 +545,11 @@ def gen_family(rng, force=(), forbid=(), n_masters=None, max_glyphs=14, p_sparse
                 g0["lib"]["com.nagwa.MATHPlugin.variants"].update({
                     "hVariants": [base_names[1], base_names[0]],
                     "hAssembly": [[base_names[0], 0, 0, 50], [base_names[1], 1, 50, 0]]})
+            if len(base_names) >= 3 and rng.random() < 0.6:
+                g2 = glyphs[base_names[2]]
+                g2["lib"]["com.nagwa.MATHPlugin.variants"] = {
+                    "vAssembly": [[base_names[2], 0, 0, 100], [base_names[0], 1, 100, 100]],
+                    "hAssembly": [[base_names[1], 0, 0, 50], [base_names[0], 0, 50, 0]]}
             if rng.random() < 0.4:
                 g0["anchors"].append(["math.ta", g0["width"] / 2, 700])
                 g0["anchors"].append(["math.bl0", 10, 0])
@@ -580,6 +585,27 @@ def gen_family(rng, force=(), forbid=(), n_masters=None, max_glyphs=14, p_sparse
             tgt = comps[0][0]
             layers["color1"][tgt] = lg3
             glyphs[tgt]["lib"][UFO2FT + "colorLayerMapping"] = [["color1", 0]]
+    if "colrv1" in on and "color" not in on:
+        # explicit (already exploded) COLRv1 colour layers: several colour glyphs whose
+        # paints reference other glyphs of the font; no filter involved
+        paintable = [n for n, _, r in roster if r in ("base", "alt") and glyphs[n]["contours"]]
+        if len(paintable) >= 2:
+            lib[UFO2FT + "colorPalettes"] = [[[1, 0, 0, 1], [0, 0, 1, 1], [0, 1, 0, 1]]]
+            cl = {}
+            order = list(paintable)
+            rng.shuffle(order)
+            for k, n in enumerate(order[: rng.randint(2, min(4, len(order)))]):
+                others = [m for m in paintable if m != n] or paintable
+                layers_ = [{"Format": 10, "Glyph": rng.choice(others),
+                            "Paint": {"Format": 2, "PaletteIndex": (k + j) % 3, "Alpha": 1.0}}
+                           for j in range(rng.randint(1, 3))]
+                cl[n] = {"Format": 1, "Layers": layers_}
+            lib[UFO2FT + "colorLayers"] = cl
+            used = set(cl) | {l["Glyph"] for v in cl.values() for l in v["Layers"]}
+            if "public.skipExportGlyphs" in lib:
+                lib["public.skipExportGlyphs"] = [n for n in lib["public.skipExportGlyphs"] if n not in used]
+            if rng.random() < 0.3:
+                lib[UFO2FT + "colrClipBoxes"] = [[[order[0]], [0, 0, 500, 700]]]
     if "background_layer" in on:
         layers["public.background"] = {names[0]: _simple_glyph(rng, spec, ncontours=1)}
         if rng.random() < 0.3:
